@@ -523,12 +523,21 @@ def r_c12_raw(p):
 
 
 def r_c18(p):
+    """observable consequences only: an accessor that raises, returns something else on
+    repetition (also after the caller mutated earlier results) or differs from a fresh object.
+    A change of internal state that no accessor shows is reported separately (`state_changes`):
+    it breaks the check's inductive argument (-> inconclusive), not the property."""
     import copy
+
+    from spec import grammar as G
 
     version = p["version"]
     cls = _cls(version)
-    o = cls(p["vector"])
+    vec0 = p["vector"]
+    mand = set(G.GRAMMARS[version]["mandatory"])
+    base_only = "/".join(f for f in vec0.split("/") if f.split(":")[0] in mand or f.startswith("CVSS:"))
     probs = []
+    state_changes = []
     calls = [("scores", {}), ("severities", {}), ("clean_vector", {}), ("rh_vector", {})]
     if version != 2:
         calls.append(("clean_vector", {"output_prefix": False}))
@@ -538,30 +547,42 @@ def r_c18(p):
         for mn in (False, True):
             calls.append(("as_json", {"sort": s, "minimal": mn}))
     calls.append(("__hash__", {}))
-    first = {}
-    for rnd in range(3):
-        for name, kw in calls:
-            before = copy.deepcopy(vars(o))
+    orders = [calls, list(reversed(calls)), calls[-5:-1][::-1] + calls[:-5] + calls[-1:]]
+    for vec in ([vec0] if base_only == vec0 else [vec0, base_only]):
+        for order in orders:
+            o = cls(vec)
+            first = {}
+            for rnd in range(3):
+                for name, kw in order:
+                    before = copy.deepcopy(vars(o))
+                    try:
+                        r = getattr(o, name)(**kw)
+                    except Exception as e:  # noqa: BLE001
+                        probs.append("%s: %s raises %s" % (vec, name, type(e).__name__))
+                        continue
+                    if repr(before) != repr(vars(o)):
+                        state_changes.append("%s%r changes the instance state" % (name, kw))
+                    key = (name, tuple(sorted(kw.items())))
+                    fresh = getattr(cls(vec), name)(**kw)
+                    if repr(fresh) != repr(r):
+                        probs.append("%s: %s%r returns %r, a fresh object %r" % (vec, name, kw, r, fresh))
+                    if key in first and repr(first[key]) != repr(r):
+                        probs.append("%s: %s%r returns %r, earlier %r" % (vec, name, kw, r, first[key]))
+                    first.setdefault(key, copy.deepcopy(r))
+                    if isinstance(r, dict):
+                        r["vectorString"] = "tampered"
+                        r["baseScore"] = -1.0
+                        r.pop("version", None)
             try:
-                r = getattr(o, name)(**kw)
+                if not (o == o) or not (o == cls(vec)):
+                    probs.append("%s: x != x after the accessor calls" % vec)
             except Exception as e:  # noqa: BLE001
-                probs.append("%s raises %s" % (name, type(e).__name__))
-                continue
-            if repr(before) != repr(vars(o)):
-                probs.append("%s%r changes the instance state" % (name, kw))
-            key = (name, tuple(sorted(kw.items())))
-            if key in first and repr(first[key]) != repr(r):
-                probs.append("%s%r returns %r, earlier %r" % (name, kw, r, first[key]))
-            first.setdefault(key, copy.deepcopy(r))
-            if isinstance(r, dict):
-                r["vectorString"] = "tampered"
-                r.clear()
-    try:
-        if not (o == o):
-            probs.append("x != x")
-    except Exception as e:  # noqa: BLE001
-        probs.append("== raises %s" % type(e).__name__)
-    return {"violates": bool(probs), "vector": p["vector"], "problems": probs[:5]}
+                probs.append("== raises %s" % type(e).__name__)
+    res = {"violates": bool(probs), "vector": vec0, "problems": probs[:5]}
+    if not probs and state_changes:
+        res["violates"] = None
+        res["inconclusive"] = "an accessor changes the object's internal state (%s); no accessor result shows it in the replayed call orders, but the frame-condition induction no longer applies" % state_changes[0]
+    return res
 
 
 def _official_pattern(version, minor):
